@@ -57,7 +57,9 @@ fn backtick_spans(msg: &str) -> Vec<String> {
 
 fn bad_arg_for(lang: Lang, r: &mut Rng) -> Option<String> {
     Some(match lang {
-        Lang::CountU32 | Lang::CountU64 | Lang::PlainU32 | Lang::Size | Lang::TimeMin | Lang::TimeDay => r.pick(&["x", "@5", "q9", "k", "#", "abc", "_1", "x'", "q\"", "x'y", "`x", "{}", "x%", "\u{e9}5", "x\\", "xxxxxxxxxxxxxxxxxxxxxxxxxxxxxxxxxxxxxxxx", "@123456789012345678901234567890", "q_a_very_long_offending_word_of_more_than_forty_characters"]).to_string(),
+        Lang::CountU32 | Lang::CountU64 | Lang::PlainU32 | Lang::Size | Lang::TimeMin | Lang::TimeDay => r.pick(&["x", "@5", "q9", "k", "#", "abc", "_1", "x'", "q\"", "x'y", "`x", "{}", "x%", "\u{e9}5", "x\\", "xxxxxxxxxxxxxxxxxxxxxxxxxxxxxxxxxxxxxxxx", "@123456789012345678901234567890", "q_a_very_long_offending_word_of_more_than_forty_characters",
+            // control, zero-width and other non-printing characters: the word must be quoted as it is in the input
+            "x\u{1b}[1m12", "\u{1b}[0m", "q\u{7}", "x\u{1}y", "q\u{7f}", "x\u{85}", "q\u{200b}z", "\u{feff}x", "xe\u{301}", "q\u{a0}r", "x\u{3000}y", "q\u{2028}", "x\u{b}", "q\u{c}k", "x\u{0}y"]).to_string(),
         Lang::Types => r.pick(&["q", "x", "z", "Q", "q'", "x\"z"]).to_string(),
         Lang::Perm => r.pick(&["q", "x+r", "9", "zz", "@"]).to_string(),
         Lang::Format | Lang::WordFormat => r.pick(&["%q", "%!", "%j", "%", "%Q"]).to_string(),
@@ -290,7 +292,7 @@ pub fn run(ctx: &Ctx, rep: &mut Report) {
             2 => format!("{}x", VOCAB[r.usize(VOCAB.len())].word),
             3 => format!("--{}", ["name", "print", "help"][r.usize(3)]),
             4 => format!("-{}{}{}", ["q", "z", "y", "j"][r.usize(4)], r.below(100), "w".repeat(r.usize(40))),
-            _ => ["+5", "@", "%p", "~", "{}", "=", "caf\u{e9}"][r.usize(7)].to_string(),
+            _ => ["+5", "@", "%p", "~", "{}", "=", "caf\u{e9}", "x\u{1b}[1m", "\u{1}", "q\u{7f}z", "z\u{200b}", "\u{feff}-name", "-na\u{301}me", "w\u{a0}w", "\u{3000}", "v\u{b}t", "b\u{7}l"][r.usize(17)].to_string(),
         };
         let before = r.usize(4);
         let mut parts: Vec<String> = (0..before).map(|_| valid_primary(&mut r).to_string()).collect();
